@@ -15,16 +15,26 @@ def main():
     results = C.run_named_tasks("harness.parse_lemmas", tasks)
     for r in results:
         chk.absorb_dict(r)
+    # the same two lemmas for ARBITRARY strings (solver string theory, no alphabet)
+    ftasks = []
+    for v in (2, 3, 4):
+        ftasks.append(("task_L4F", (v,)))
+        ftasks.append(("task_L2F", (v,)))
+    for r in C.run_named_tasks("harness.freestr", ftasks):
+        chk.absorb_dict(r)
     # L3 (no exception after acceptance) is established by C01/C02/C03 in M-ASSIGN (constructor
     # raises nothing on any grammatical vector); a light instance is re-run here
     results = C.run_named_tasks("harness.c04", [("task_L3", (v,)) for v in (2, 3, 4)])
     for r in results:
         chk.absorb_dict(r)
-    chk.input_model = ("M-FIELDS, inductive use: the real loop body of parse_vector on one field slot (all legal literals + near-miss alphabet, exact CPython string semantics) from an ARBITRARY metric map; "
+    chk.input_model = ("free-string lemmas L4F/L2F: the real loop body of parse_vector on ONE ARBITRARY '/'-free string from an arbitrary metric map, and the real code before the loop on ONE ARBITRARY string, "
+                       "executed path by path over z3 string terms (pysymex/strsym.py), one z3 query per path; plus M-FIELDS, inductive use: the real loop body of parse_vector on one field slot (all legal literals + near-miss alphabet, exact CPython string semantics) from an ARBITRARY metric map; "
                        "the real code before the loop on head x up to 4 abstract chunks; check_mandatory from an arbitrary map; the rest of __init__ on every grammatical vector (M-ASSIGN, scores abstracted here, real in C01-C03)")
     chk.bounds = ["field alphabet: finite (legal literals + systematic near misses, listed in evidence); strings outside it are covered only through the written induction and the code's use of dict membership on the split parts",
                   "L2: heads from a finite near-miss list, at most 4 chunks after the head (the code before the loop does not look at individual chunks beyond emptiness of the string end)"]
-    chk.outside = ["non-str arguments", "fields and prefixes outside the finite alphabets (an unbounded free-string lemma in a solver string theory was planned and NOT built)"]
+    chk.bounds.append("free-string lemmas: no length bound, characters in z3's code point range U+0000-U+2FFFF; the finite alphabets remain as an independent second engine (CPython string semantics at the leaves)")
+    chk.outside = ["non-str arguments", "code points above U+2FFFF in the free-string lemmas (covered by the finite alphabets only through look-alike samples)",
+                   "parser code using constructs the string executor declines (regular expressions, int()/float() on the symbolic string, str.replace/join, whitespace split): the free-string lemma is then inconclusive and only the finite alphabets decide"]
     chk.assumptions = ["str.split returns separator-free chunks whose join is the input (CPython contract)",
                        "composition over any number of fields: written induction with invariant 'metric map = map of the fields seen so far, all distinct' (DESIGN.md section 6 C04)"]
     C.finish(chk)
